@@ -99,6 +99,7 @@ struct Stats {
     getenv_in_expansion: u64,
     getpid_calls: u64,
     getpid_in_expansion: u64,
+    disk_writes_in_expansion: u64,
     env_names_in_expansion: BTreeSet<String>,
     fs_calls_in_expansion: u64,
     fs_names_in_expansion: BTreeSet<String>,
@@ -153,6 +154,7 @@ impl Stats {
         self.getenv_in_expansion += o.getenv_in_expansion;
         self.getpid_calls += o.getpid_calls;
         self.getpid_in_expansion += o.getpid_in_expansion;
+        self.disk_writes_in_expansion += o.disk_writes_in_expansion;
         self.env_names_in_expansion.extend(o.env_names_in_expansion);
         self.fs_calls_in_expansion += o.fs_calls_in_expansion;
         self.fs_names_in_expansion.extend(o.fs_names_in_expansion);
@@ -301,7 +303,7 @@ fn host_summary(h: &HostCfg) -> Value {
         "entropy_seed": h.entropy_seed, "entropy_skip": h.entropy_skip,
         "env": h.env.iter().map(|(k, v)| format!("{}={}", k, if v.len() > 24 { format!("<{} bytes>", v.len()) } else { v.clone() })).collect::<Vec<_>>(),
         "clock_epoch_ns": h.clock_epoch_ns, "clock_step_ns": h.clock_step_ns, "pid": h.pid, "cwd": h.cwd, "argv": h.argv,
-        "hostname": h.hostname, "uid": h.uid, "ncpu": h.ncpu,
+        "hostname": h.hostname, "uid": h.uid, "ncpu": h.ncpu, "warm_disk": h.warm_disk,
         "fs_view": h.fs_map.iter().map(|(k, key, c)| format!("{} {} <{} bytes>", k, key, c.len())).collect::<Vec<_>>(),
         "history": if ev.len() > 60 { let mut e = ev[..60].to_vec(); e.push(format!("... {} more", ev.len() - 60)); e } else { ev },
     })
@@ -384,6 +386,7 @@ fn run_world(env: &Env, idx: usize, ws: u64, corpus: &corpus::Corpus, po: &PlanO
         st.getenv_in_expansion += log.counters[6];
         st.getpid_calls += log.counters[7];
         st.getpid_in_expansion += log.counters[8];
+        st.disk_writes_in_expansion += log.counters[9];
         for n in log.env_names.split(';').filter(|x| !x.is_empty()) {
             env_names.insert(n.to_string());
         }
@@ -420,7 +423,7 @@ fn run_world(env: &Env, idx: usize, ws: u64, corpus: &corpus::Corpus, po: &PlanO
         for n in fault_names(fired) {
             *st.fault_fired_hosts.entry(n.to_string()).or_default() += 1;
         }
-        st.distinct_fault_vectors.insert(fnv64(format!("{:?}|{}|{}|{}|{}|{:?}|{:?}|{:?}|{:?}|{:?}|{:?}", h.env, h.entropy_seed, h.clock_epoch_ns, h.clock_step_ns, h.pid, h.cwd, h.argv, h.hostname, h.uid, h.ncpu, h.fs_map).as_bytes()));
+        st.distinct_fault_vectors.insert(fnv64(format!("{:?}|{}|{}|{}|{}|{:?}|{:?}|{:?}|{:?}|{:?}|{:?}|{}", h.env, h.entropy_seed, h.clock_epoch_ns, h.clock_step_ns, h.pid, h.cwd, h.argv, h.hostname, h.uid, h.ncpu, h.fs_map, h.warm_disk).as_bytes()));
 
         // position of each observation in the host's history, counting expansions only
         let mut n_before = 0usize;
@@ -521,8 +524,10 @@ fn run_batch(env: &Env, cfg: &Cfg, corpus: &corpus::Corpus, po: &PlanOpts, indic
     let next = AtomicUsize::new(0);
     let out: Mutex<Vec<WorldOutcome>> = Mutex::new(Vec::new());
     std::thread::scope(|s| {
-        for _ in 0..jobs.max(1) {
-            s.spawn(|| loop {
+        for slot in 0..jobs.max(1) {
+            let (next, out) = (&next, &out);
+            s.spawn(move || loop {
+                plan::SLOT.with(|x| x.set(slot));
                 let i = next.fetch_add(1, Ordering::SeqCst);
                 if i >= indices.len() {
                     break;
@@ -583,6 +588,7 @@ fn hostcfg_to_json(h: &HostCfg) -> Value {
         "pid": h.pid, "cwd": h.cwd, "argv": h.argv, "events": ev,
         "hostname": h.hostname, "uid": h.uid, "ncpu": h.ncpu,
         "fs_map": h.fs_map.iter().map(|(k, key, c)| json!([k.to_string(), key, c])).collect::<Vec<_>>(),
+        "warm_disk": h.warm_disk,
     })
 }
 
@@ -603,6 +609,7 @@ fn hostcfg_from_json(v: &Value) -> Option<HostCfg> {
     h.hostname = v["hostname"].as_str().map(|s| s.to_string());
     h.uid = v["uid"].as_u64().map(|x| x as u32);
     h.ncpu = v["ncpu"].as_u64().map(|x| x as u32);
+    h.warm_disk = v["warm_disk"].as_bool().unwrap_or(false);
     if let Some(a) = v["fs_map"].as_array() {
         for e in a {
             h.fs_map.push((e[0].as_str()?.chars().next()?, e[1].as_str()?.to_string(), e[2].as_str()?.to_string()));
@@ -982,6 +989,7 @@ fn cmd_run(cfg: &Cfg) -> i32 {
                 "clock": total.clock_reads_in_expansion,
                 "getenv": total.getenv_in_expansion, "getenv_names": total.env_names_in_expansion,
                 "getpid": total.getpid_in_expansion,
+                "writes_to_the_simulated_disk": total.disk_writes_in_expansion,
                 "filesystem_and_identity_calls": total.fs_calls_in_expansion, "filesystem_paths_and_identity_calls": total.fs_names_in_expansion,
                 "note": "getrandom > 0 is expected (std's RandomState keys, once per thread); clock / getenv / getpid are expected to be 0 on a tree that satisfies the property's 'nothing depends on time or environment' clause by construction; non-zero values are not themselves violations (the output must differ to be one) but are fed back: later worlds always vary the variables that were looked up",
             },
@@ -1086,6 +1094,8 @@ fn main() {
     }
     let args: Vec<String> = std::env::args().collect();
     let cmd = args.get(1).map(|s| s.as_str()).unwrap_or("run");
+    // scratch areas of earlier runs
+    let _ = std::fs::remove_dir_all(PathBuf::from(env_or("SIM_BUILD_DIR", "/verif/build/repo")).join("simfs"));
     let mut cfg = Cfg {
         verif: PathBuf::from(env_or("VERIF_DIR", "/verif")),
         repo: PathBuf::from(env_or("O2O_REPO", "/repo")),
